@@ -475,6 +475,8 @@ func checkC08(p *Program, r *Report) {
 		r.Unk("narrowing conversions", "", "none found in the build scope (the 16-bit step encoder is gone?)")
 	}
 	checkRejectReasons(p, r)
+	// ---- never mis-indexed (shared with C01): an accepted input is decoded with the node sizes it was built with
+	checkBigZone(p, r, "C08.bigzone")
 }
 
 func dedupFuncs(fs []*ssa.Function) []*ssa.Function {
